@@ -38,7 +38,7 @@ def setup(ctx):
 FOREIGN = ["// F{} foreign", "# F{} foreign", "-- F{} foreign", "<!-- F{} foreign -->", "/* F{} foreign */", "; F{} foreign", "% F{} x"]
 
 
-def make_body(rng, st, short, header_pos, bom, with_decl):
+def make_body(rng, st, short, header_pos, bom, with_decl, latin=False):
     """-> list of (label, line) ; labels: 'A' atom, 'B' blank, 'H' old header, 'D' declaration"""
     items = []
     uid = [0]
@@ -57,6 +57,9 @@ def make_body(rng, st, short, header_pos, bom, with_decl):
                 out.append(("A", rng.choice(["    ", "\t", "  "]) + f"K{nid()} indented"))
             elif r < 0.57:
                 out.append(("A", f"K{nid()} trailing blanks" + rng.choice([" ", "   ", "\t"])))
+            elif r < 0.585 and latin:
+                # bytes that are not UTF-8 (a Latin-1 comment or string): kept as they are, or the file is refused - never rewritten
+                out.append(("A", rng.choice([f"K{nid()} caf\udce9 cr\udce8me", f"s = 'K{nid()} na\udcefve \udcff'"])))
             elif r < 0.6:
                 # characters str.splitlines() would split on, but which are not line endings of the file
                 odd = rng.choice(["\x0c", "\x0b", "\x1c", "\x1d", "\x1e", "\x85", "\u2028", "\u2029"])
@@ -87,6 +90,9 @@ def make_body(rng, st, short, header_pos, bom, with_decl):
     if header_pos not in ("none", "top-trailing"):
         lines = [f"SPDX-FileCopyrightText: 2019 Old Holder{nid()}", "", "SPDX-License-Identifier: Apache-2.0"]
         old = [("H", ln) for ln in trees.comment_block(st, lines, multi=rng.random() < 0.3).split("\n")]
+        if rng.random() < 0.3:
+            # a header somebody wrote or edited by hand: blanks at the ends of its lines
+            old = [("H", ln + rng.choice(["", " ", "  ", "\t", "   "])) for _, ln in old]
     if header_pos == "top-trailing":
         # a multi-line comment holding tags whose closing line goes on with real content: not a header the tool can
         # replace; whatever it does, the content behind the end marker is not its to remove
@@ -198,7 +204,30 @@ def analyse(res, items, out_text, E, opts, desc):
     if "SPDX-License-Identifier: MIT" not in around or "New Holder" not in around:
         res.violation(f"inserted-block-is-not-the-header:{key_base}", "the changed region does not contain the requested tags", window_out=out_mid[:30])
         return False
-    # (ii) right-stripping only for the nearest non-blank line above the block
+    # every inserted line is a line of the header: a comment delimiter, an empty comment line, a requested tag or a tag of the
+    # header that was replaced - never a fragment of anything else
+    st = opts.get("st")
+    if st:
+        toks = sorted({t for t in (st["single"], st["multi"][0], st["multi"][1], st["multi"][2]) if t}, key=len, reverse=True)
+        allowed = {"SPDX-FileCopyrightText: 2021 New Holder", "SPDX-License-Identifier: MIT"} | \
+                  {ln[ln.index("SPDX-"):].strip() for lab, ln in items if lab == "H" and "SPDX-" in ln}
+        for i in new_idx:
+            c = out_mid[i].strip()
+            changed = True
+            while changed and c:
+                changed = False
+                for t in toks:
+                    if c.startswith(t):
+                        c, changed = c[len(t):].strip(), True
+                    elif c.endswith(t):
+                        c, changed = c[:-len(t)].strip(), True
+            if "SPDX-" in c:
+                c = c[c.index("SPDX-"):]
+            if c and c not in allowed:
+                res.violation(f"foreign-line-in-inserted-block:{key_base}", f"inserted line {out_mid[i]!r} is neither comment syntax nor one of the "
+                              f"header's tags ({desc})", window_out=out_mid[:40])
+                return False
+
     for i, r in enumerate(roles):
         if isinstance(r, tuple) and r[2]:
             if i > lo or any(roles[x] != "blank" for x in range(i + 1, lo)):
@@ -257,7 +286,9 @@ def run_case(case, ctx):
             with_decl = rng.random() < 0.35
             final_nl = rng.random() < 0.8
             multi = rng.random() < 0.25 and bool(st["multi"][0] and st["multi"][2])
-            items, decl = make_body(rng, st, short, header_pos, bom, with_decl)
+            latin = rng.random() < 0.12
+            items, decl = make_body(rng, st, short, header_pos, bom, with_decl, latin)
+            latin = any(0xDC80 <= ord(c) <= 0xDCFF for _, ln in items for c in ln)
             if final_nl and rng.random() < 0.2:
                 items += [("B", "")] * rng.randint(1, 2)  # trailing blank lines
             text = (BOM if bom else "") + E.join(ln for _, ln in items) + (E if final_nl else "")
@@ -265,7 +296,8 @@ def run_case(case, ctx):
                 E, eolname = "\n", "none"
             f = root / fname
             f.parent.mkdir(parents=True, exist_ok=True)
-            f.write_bytes(text.encode("utf-8"))
+            raw = text.encode("utf-8", "surrogateescape")
+            f.write_bytes(raw)
             cwd, gargs, fargs = annot.place(rng, root, [f])
             args = gargs + ["annotate", "-c", "New Holder", "-l", "MIT", "--year", "2021"]
             if forced:
@@ -283,23 +315,25 @@ def run_case(case, ctx):
                 res.violation("escaped-exception", f"{r.exc_type} ({desc})", tb=r.exc_tb)
                 continue
             if r.exit_code != 0:
-                res.cell("annotate-refused")
-                if f.read_bytes() != text.encode("utf-8"):
+                res.cell("annotate-refused" + (":non-utf8-body" if latin else ""))
+                if f.read_bytes() != raw:
                     res.violation("refused-but-changed", "annotate failed yet changed the file", **r.brief())
                 continue
             out = f.read_bytes()
             if os.path.exists(str(f) + ".license"):
                 # the content classifier took the file for binary (control characters): the header went to FILE.license
                 res.cell("went-to-dot-license")
-                if out != text.encode("utf-8"):
+                if out != raw:
                     res.violation("file-changed-although-header-went-to-dot-license", f"FILE.license was written and FILE changed as well ({desc})")
                 continue
             try:
-                out_text = out.decode("utf-8")
+                out_text = out.decode("utf-8", "surrogateescape" if latin else "strict")
             except UnicodeDecodeError:
                 res.violation("output-not-utf8", "annotate wrote undecodable bytes")
                 continue
-            ok = analyse(res, items, out_text, E, {"bom": bom, "decl": decl, "no_replace": no_replace, "final_nl": final_nl}, desc)
+            if latin:
+                res.cell("body-with-non-utf8-bytes:annotated")
+            ok = analyse(res, items, out_text, E, {"bom": bom, "decl": decl, "no_replace": no_replace, "final_nl": final_nl, "st": st}, desc)
             if ok and sum(1 for lab, _ in items if lab == "A") >= 3:
                 res.sigs.add(short_hash(short, sorted(desc.items()), [ln for _, ln in items]))
             res.cell("style:" + short)
